@@ -154,3 +154,12 @@ func (c *Client) VerifConsume(name enc.Name, callback ConsumeCallback) *ConsumeS
 	c.consumeObject(state)
 	return state
 }
+
+// VerifConsts returns the package-level constants the verification models depend on (evaluated by the compiler:
+// renaming one of them breaks this file in the same commit).
+func VerifConsts() map[string]uint64 {
+	return map[string]uint64{
+		"pSegmentSize": uint64(pSegmentSize),
+		"maxObjectSeg": uint64(maxObjectSeg),
+	}
+}
